@@ -349,6 +349,98 @@ def run_literals(chk):
                 chk.cell(key, exp, rows[0], case, sub="literal", signature="lit|%s|%s" % (op, _diffclass(exp, rows[0])))
 
 
+# ---- literals as operands of unary operators and as conditions (dead-branch / folding paths of a compiler)
+LITCOND_FORMS = {
+    "ternary": "var r = (%s ? 'T' : 'F');",
+    "and": "var r = (%s && 'R');",
+    "or": "var r = (%s || 'R');",
+    "not": "var r = !%s;",
+    "notnot": "var r = !!%s;",
+    "if": "var r; if (%s) r = 'T'; else r = 'F';",
+    "if-noelse": "var r = 'N'; if (%s) r = 'T';",
+    "while": "var r = 'F'; while (%s) { r = 'T'; break; }",
+    "for": "var r = 'F'; for (; %s; ) { r = 'T'; break; }",
+    "dowhile": "var r = 0; do { r = r + 1; } while (%s && r < 2);",
+    "and-call": "var hit = 0; var f = function(){ hit = hit + 1; return 'C'; }; var r0 = (%s && f()); var r = [r0 === 'C' ? 'C' : 'x', hit].join();",
+    "or-call": "var hit = 0; var f = function(){ hit = hit + 1; return 'C'; }; var r0 = (%s || f()); var r = [r0 === 'C' ? 'C' : 'x', hit].join();",
+}
+
+
+def _litcond_expected(form, v):
+    t = P.to_boolean(v)
+    if form == "ternary":
+        return "T" if t else "F"
+    if form == "and":
+        return "R" if t else v
+    if form == "or":
+        return v if t else "R"
+    if form == "not":
+        return not t
+    if form == "notnot":
+        return t
+    if form in ("if", "while", "for"):
+        return "T" if t else "F"
+    if form == "if-noelse":
+        return "T" if t else "N"
+    if form == "dowhile":
+        return 2.0 if t else 1.0
+    if form == "and-call":
+        return "C,1" if t else "x,0"
+    if form == "or-call":
+        return "x,0" if t else "C,1"
+    raise KeyError(form)
+
+
+def eval_litcond(tasks):
+    m = engine.load()
+    out = []
+    for kind, form, src in tasks:
+        if kind == "un":
+            prog = "var r = (%s %s); [typeof r, r]" % (form, src)  # (a space: - -1, not --1)
+        else:
+            prog = (LITCOND_FORMS[form] % src) + " [typeof r, r]"
+        if kind == "fn":
+            prog = "(function(){ %s return [typeof r, r]; })()" % (LITCOND_FORMS[form] % src)
+        try:
+            with pool.cpu_alarm(20):
+                r = m.Context(time_limit=10).eval(prog)
+            out.append(("ok", [r[0], engine.tv(r[1])]))
+        except pool.HarnessTimeout:
+            out.append(("err", {"cls": "HANG", "family": False}))
+        except Exception as e:
+            out.append(("err", engine.exc_info(e)))
+    return out
+
+
+def run_litcond(chk):
+    srcs = [s for _, s, _ in GRID] + [s for s in SMALL_LITERALS if s not in SRC2VAL and _lit_value(s) is not _MISSING]
+    tasks = []
+    for s_ in srcs:
+        for op in P.UNOPS:
+            tasks.append(("un", op, s_))
+        for form in LITCOND_FORMS:
+            tasks.append(("top", form, s_))
+            tasks.append(("fn", form, s_))
+    batches = pool.chunks(tasks, 400)
+    res = pool.run(eval_litcond, batches, timeout=600)
+    for batch, rb in zip(batches, res):
+        if isinstance(rb, (pool.HANG, pool.CRASH)):
+            raise engine.HarnessError("C06 litcond batch %r" % rb)
+        for (kind, form, src), (st, row) in zip(batch, rb):
+            v = _lit_value(src)
+            exp = exp_pair(P.unop(form, v) if kind == "un" else _litcond_expected(form, v))
+            key = "litcond|%s|%s|%s" % (kind, form, src)
+            chk.count()
+            chk.nontrivial(key)
+            chk.classify("litcond %s" % (form if kind != "un" else "unary"))
+            case = {"kind": "litcond", "place": kind, "form": form, "src": src}
+            if st != "ok":
+                actual = ["exception", row.get("cls"), row.get("name"), (row.get("message") or "")[:60]]
+                chk.cell(key, exp, actual, case, sub="litcond", signature="litcond|%s|%s|exc" % (kind, form))
+            else:
+                chk.cell(key, exp, row, case, sub="litcond", signature="litcond|%s|%s|%s" % (kind, form, _diffclass([exp], [row])))
+
+
 # ---- compound assignment / update with the right operand written as a literal
 # (the table campaign feeds operands through variables; a compiler that special-cases
 # `x += 1`, `x *= 2`, `x -= 0` ... keys on the literal in the source)
@@ -642,6 +734,7 @@ def main(chk):
             chk.violation("saved-replay|" + path, rec.get("case"), r["expected"], r["actual"], sub="replay")
     run_tables(chk)
     run_literals(chk)
+    run_litcond(chk)
     run_cmplit(chk)
     run_trees(chk)
     chk.exhaustive = False
@@ -663,6 +756,11 @@ def replay(rec):
     kind = case["kind"]
     if kind == "lit":
         return replay({"case": {"src": case["src"]}, "expected": rec.get("expected")})
+    if kind == "litcond":
+        st, row = eval_litcond([(case["place"], case["form"], case["src"])])[0]
+        v = _lit_value(case["src"])
+        exp = exp_pair(P.unop(case["form"], v) if case["place"] == "un" else _litcond_expected(case["form"], v))
+        return {"fails": st != "ok" or row != exp, "expected": exp, "actual": row}
     if kind == "cmplit":
         st, row = eval_cmplit([(case["op"], case["form"], case["left"], case["right"])])[0]
         r = P.binop(case["op"][:-1], _lit_value(case["left"]), _lit_value(case["right"]))
